@@ -2428,6 +2428,36 @@ fn c13(thorough: bool) -> Suite {
         &[env(2, 1, None, UNB)],
         false,
     ));
+    // a timed waiter first in the queue, a pending future behind it, a peer
+    // that takes the first one around its deadline
+    ps.extend(product(
+        "c13-first-of-two",
+        &[
+            vec![vec![Op::SendT(2)], vec![Op::SendOT(1)]],
+            vec![vec![Op::FSend(0), Op::Poll(0, 0), Op::Wait(0), Op::Poll(0, 0)]],
+            vec![vec![Op::Recv, Op::Set(0), Op::TryRecv], vec![Op::TryRecv, Op::Set(0), Op::Recv]],
+        ],
+        &[Cap::B(0)],
+        &[Class::DL],
+        &[vec![(S, S), (A, A), (S, S)]],
+        &[(S, Conv::Clone)],
+        &[env(2, 1, None, pb3(thorough))],
+        false,
+    ));
+    ps.extend(product(
+        "c13-first-of-two-r",
+        &[
+            vec![vec![Op::RecvT(2)], vec![Op::RecvT(1)]],
+            vec![vec![Op::FRecv(0), Op::Poll(0, 0), Op::Wait(0), Op::Poll(0, 0)]],
+            vec![vec![Op::Send, Op::Set(0), Op::TrySend], vec![Op::TrySend, Op::Set(0), Op::Send]],
+        ],
+        &[Cap::B(0)],
+        &[Class::DL],
+        &[vec![(S, S), (A, A), (S, S)]],
+        &[(S, Conv::Clone)],
+        &[env(2, 1, None, pb3(thorough))],
+        false,
+    ));
     ps.extend(product(
         "c13-3thr",
         &[
@@ -2738,6 +2768,46 @@ fn c15(thorough: bool) -> Suite {
         &[vec![(A, A), (S, S)]],
         &[(S, Conv::Clone)],
         &[env(2, 1, None, UNB)],
+        false,
+    ));
+    // the first of two queued waiters is completed by a peer and then dropped
+    // without another poll: the cancel attempt finds only the *other* waiter
+    ps.extend(product(
+        "c15-first-of-two",
+        &[
+            vec![
+                vec![Op::FSend(0), Op::Poll(0, 0), Op::FSend(1), Op::Poll(1, 0), Op::Set(0), Op::Wait(1), Op::FDrop(0), Op::Set(2), Op::Wait(3), Op::Poll(1, 0)],
+                vec![Op::FSend(0), Op::Poll(0, 0), Op::FSend(1), Op::Poll(1, 0), Op::Set(0), Op::FDrop(0), Op::Wait(1), Op::Set(2), Op::Wait(3), Op::Poll(1, 0)],
+            ],
+            vec![
+                vec![Op::Wait(0), Op::Recv, Op::Set(1), Op::Wait(2), Op::TryRecv, Op::Set(3)],
+                vec![Op::Wait(0), Op::TryRecv, Op::Set(1), Op::Wait(2), Op::Recv, Op::Set(3)],
+            ],
+        ],
+        &[Cap::B(0), Cap::B(1)],
+        classes,
+        &[vec![(A, A), (S, S)], vec![(A, A), (A, A)]],
+        &[(S, Conv::Clone)],
+        &[env(2, 1, None, Some(4))],
+        false,
+    ));
+    ps.extend(product(
+        "c15-first-of-two-r",
+        &[
+            vec![
+                vec![Op::Wait(0), Op::TrySend, Op::Set(1), Op::Wait(2), Op::TrySend, Op::Set(3)],
+                vec![Op::Wait(0), Op::Send, Op::Set(1), Op::Wait(2), Op::TrySend, Op::Set(3)],
+            ],
+            vec![
+                vec![Op::FRecv(0), Op::Poll(0, 0), Op::FRecv(1), Op::Poll(1, 0), Op::Set(0), Op::Wait(1), Op::FDrop(0), Op::Set(2), Op::Wait(3), Op::Poll(1, 0)],
+                vec![Op::FRecv(0), Op::Poll(0, 0), Op::FRecv(1), Op::Poll(1, 0), Op::Set(0), Op::FDrop(0), Op::Wait(1), Op::Set(2), Op::Wait(3), Op::Poll(1, 0)],
+            ],
+        ],
+        &[Cap::B(0), Cap::B(1)],
+        classes,
+        &[vec![(S, S), (A, A)], vec![(A, A), (A, A)]],
+        &[(S, Conv::Clone)],
+        &[env(2, 1, None, Some(4))],
         false,
     ));
     ps.extend(product(
